@@ -1,0 +1,773 @@
+//go:build verif
+
+package migrate
+
+import (
+	"bytes"
+	"go/ast"
+	"go/token"
+	"go/types"
+	"io"
+	"io/fs"
+
+	"golang.org/x/tools/go/packages"
+
+	vs "github.com/mazrean/kessoku/internal/verifspec"
+)
+
+//kvc:purepkg go/types
+
+// ---------------------------------------------------------------------------
+// C14: import bookkeeping of the merged migration output.
+//
+// Abstract view of a TypeConverter: a partial injective map  path -> local
+// name (tc.imports) together with its inverse (tc.usedNames). "Consistent
+// aliases when different packages share a name" is: the map stays injective,
+// and a path keeps the name it was given first, whatever is added later.
+// ---------------------------------------------------------------------------
+
+// tcInv: imports and usedNames are mutually inverse partial maps.
+func tcInv(tc *TypeConverter) bool {
+	return tc != nil && tc.imports != nil && tc.usedNames != nil && tc.nameCounters != nil &&
+		!vs.SameMap(tc.imports, tc.usedNames) &&
+		vs.ForallString(func(p string) bool {
+			return vs.Implies(vs.Has(tc.imports, p), vs.Has(tc.usedNames, tc.imports[p]) && tc.usedNames[tc.imports[p]] == p)
+		}) &&
+		vs.ForallString(func(n string) bool {
+			return vs.Implies(vs.Has(tc.usedNames, n), vs.Has(tc.imports, tc.usedNames[n]) && tc.imports[tc.usedNames[n]] == n)
+		})
+}
+
+// tcExtends: every path imported in the old state is still imported under the same name.
+func tcKeeps(tc *TypeConverter) bool {
+	return vs.ForallString(func(p string) bool {
+		return vs.Implies(vs.Old(vs.Has(tc.imports, p)), vs.Has(tc.imports, p) && tc.imports[p] == vs.Old(tc.imports[p]))
+	})
+}
+
+//kvc:contract (*TypeConverter).AddImport
+func contract_TypeConverter_AddImport(tc *TypeConverter, path, desiredName string) (result string) {
+	vs.Requires(tcInv(tc))
+	vs.Ensures("inv", tcInv(tc))
+	vs.Ensures("imported_under_result", vs.Has(tc.imports, path) && tc.imports[path] == result)
+	vs.Ensures("existing_entries_unchanged", tcKeeps(tc))
+	vs.Ensures("only_path_added", vs.ForallString(func(p string) bool {
+		return vs.Implies(p != path, vs.Has(tc.imports, p) == vs.Old(vs.Has(tc.imports, p)))
+	}))
+	vs.Ensures("new_name_was_free", vs.Implies(!vs.Old(vs.Has(tc.imports, path)), !vs.Old(vs.Has(tc.usedNames, result))))
+	vs.Ensures("desired_name_when_free", vs.Implies(!vs.Old(vs.Has(tc.imports, path)) && !vs.Old(vs.Has(tc.usedNames, desiredName)), result == desiredName))
+	vs.Ensures("collision_extends_desired", vs.Implies(!vs.Old(vs.Has(tc.imports, path)), vs.StrPrefixOf(desiredName, result)))
+	vs.Modifies(tc.imports, tc.usedNames, tc.nameCounters)
+	return
+}
+
+//kvc:loop (*TypeConverter).AddImport "for {"
+func inv_AddImport_search(tc *TypeConverter, path, desiredName, baseName string) {
+	vs.Invariant("base", baseName == desiredName)
+	vs.Invariant("not_imported", !vs.Has(tc.imports, path))
+	vs.Invariant("maps_unchanged", vs.ForallString(func(s string) bool {
+		return vs.Has(tc.imports, s) == vs.Old(vs.Has(tc.imports, s)) && tc.imports[s] == vs.Old(tc.imports[s]) &&
+			vs.Has(tc.usedNames, s) == vs.Old(vs.Has(tc.usedNames, s)) && tc.usedNames[s] == vs.Old(tc.usedNames[s])
+	}))
+	vs.Invariant("inv", tcInv(tc))
+}
+
+// lastPathElement is a pure string function; its value is not needed, only that Imports() and the
+// alias rule use the same one.
+//
+//kvc:pure lastPathElement
+
+// aliasRule: an import spec carries an explicit name exactly when the local name differs from the last
+// path element.
+func aliasRule(tc *TypeConverter, s ImportSpec) bool {
+	return vs.Has(tc.imports, s.Path) &&
+		((tc.imports[s.Path] == lastPathElement(s.Path) && s.Name == "") ||
+			(tc.imports[s.Path] != lastPathElement(s.Path) && s.Name == tc.imports[s.Path]))
+}
+
+//kvc:contract (*TypeConverter).Imports
+func contract_TypeConverter_Imports(tc *TypeConverter) (specs []ImportSpec) {
+	vs.Requires(tcInv(tc))
+	vs.Ensures("each_entry_follows_alias_rule", vs.Forall(len(specs), func(i int) bool { return aliasRule(tc, specs[i]) }))
+	vs.Ensures("paths_distinct", vs.ForallInt2(func(i, j int) bool {
+		return vs.Implies(0 <= i && i < j && j < len(specs), specs[i].Path != specs[j].Path)
+	}))
+	vs.Ensures("every_import_listed", vs.ForallString(func(p string) bool {
+		return vs.Implies(vs.Has(tc.imports, p), vs.Exists(len(specs), func(i int) bool { return specs[i].Path == p }))
+	}))
+	vs.Allocates()
+	return
+}
+
+//kvc:loop (*TypeConverter).Imports "for path, name := range tc.imports"
+func inv_Imports_range(tc *TypeConverter, seen map[string]bool, specs []ImportSpec, kvcSeen map[string]bool) {
+	vs.Invariant("seen_is_visited", seen != nil && vs.ForallString(func(s string) bool { return seen[s] == vs.Has(kvcSeen, s) }))
+	vs.Invariant("entries", vs.Forall(len(specs), func(i int) bool { return aliasRule(tc, specs[i]) && vs.Has(kvcSeen, specs[i].Path) }))
+	vs.Invariant("distinct", vs.ForallInt2(func(i, j int) bool {
+		return vs.Implies(0 <= i && i < j && j < len(specs), specs[i].Path != specs[j].Path)
+	}))
+	vs.Invariant("visited_listed", vs.ForallString(func(p string) bool {
+		return vs.Implies(vs.Has(kvcSeen, p), vs.Exists(len(specs), func(i int) bool { return specs[i].Path == p }))
+	}))
+}
+
+// ---------------------------------------------------------------------------
+// The writer: every function that can reach AddImport keeps the converter's invariant and never
+// renames a path that already has a name ("consistent aliases").
+// ---------------------------------------------------------------------------
+
+func wInv(w *Writer) bool { return w != nil && (w.typeConverter == nil || tcInv(w.typeConverter)) }
+
+func wKeeps(w *Writer) bool { return w.typeConverter == nil || tcKeeps(w.typeConverter) }
+
+// CollectExprImports walks the expression with ast.Inspect and a closure; the walk is outside kvc's
+// subset, the contract is ASSUMED: the only effect on the converter is a sequence of AddImport calls
+// (each of which is proved to keep tcInv and existing names), and identifiers are renamed in place.
+//
+//kvc:contract (*TypeConverter).CollectExprImports
+func contract_TypeConverter_CollectExprImports(tc *TypeConverter, expr ast.Expr, sourceImports map[string]string) {
+	vs.Requires(tcInv(tc))
+	vs.Ensures("inv", tcInv(tc))
+	vs.Ensures("keeps", tcKeeps(tc))
+	vs.Modifies(tc.imports, tc.usedNames, tc.nameCounters, vs.FieldOfAll((*ast.Ident)(nil).Name))
+	return
+}
+
+//kvc:contract (*TypeConverter).CollectPatternImports
+func contract_TypeConverter_CollectPatternImports(tc *TypeConverter, p KessokuPattern, sourceImports map[string]string) {
+	vs.Requires(tcInv(tc) && patternOK(p) && patternsWF())
+	vs.Ensures("inv", tcInv(tc))
+	vs.Ensures("keeps", tcKeeps(tc))
+	vs.Modifies(tc.imports, tc.usedNames, tc.nameCounters, vs.FieldOfAll((*ast.Ident)(nil).Name))
+	return
+}
+
+//kvc:loop (*TypeConverter).CollectPatternImports "for _, elem := range kp.Elements"
+func inv_CollectPatternImports_elements(tc *TypeConverter) {
+	vs.Invariant("inv", tcInv(tc))
+	vs.Invariant("keeps", tcKeeps(tc))
+}
+
+// qualifiedBy: e is the selector expression <name>.<sel>.
+func qualifiedBy(e ast.Expr, name, sel string) bool {
+	return vs.TypeIs[*ast.SelectorExpr](e) && vs.As[*ast.SelectorExpr](e) != nil &&
+		vs.TypeIs[*ast.Ident](vs.As[*ast.SelectorExpr](e).X) && vs.As[*ast.Ident](vs.As[*ast.SelectorExpr](e).X) != nil &&
+		vs.As[*ast.Ident](vs.As[*ast.SelectorExpr](e).X).Name == name &&
+		vs.As[*ast.SelectorExpr](e).Sel != nil && vs.As[*ast.SelectorExpr](e).Sel.Name == sel
+}
+
+func externalNamed(tc *TypeConverter, t types.Type) bool {
+	return vs.TypeIs[*types.Named](t) && vs.As[*types.Named](t) != nil && vs.As[*types.Named](t).Obj().Pkg() != nil &&
+		tc.currentPkg != nil && vs.As[*types.Named](t).Obj().Pkg() != tc.currentPkg
+}
+
+//kvc:contract (*TypeConverter).TypeToExpr
+func contract_TypeConverter_TypeToExpr(tc *TypeConverter, t types.Type) (result ast.Expr) {
+	vs.Requires(tcInv(tc))
+	vs.Ensures("inv", tcInv(tc))
+	vs.Ensures("keeps", tcKeeps(tc))
+	vs.Ensures("external_named_qualified_and_imported", vs.Implies(externalNamed(tc, t),
+		vs.Has(tc.imports, vs.As[*types.Named](t).Obj().Pkg().Path()) &&
+			qualifiedBy(result, tc.imports[vs.As[*types.Named](t).Obj().Pkg().Path()], vs.As[*types.Named](t).Obj().Name())))
+	vs.Modifies(tc.imports, tc.usedNames, tc.nameCounters)
+	vs.Allocates()
+	return
+}
+
+// the fallback used without a converter touches nothing
+//
+//kvc:contract typeToExpr
+func contract_typeToExpr(t types.Type) (result ast.Expr) {
+	vs.Allocates()
+	return
+}
+
+//kvc:contract (*Writer).typeToExpr
+func contract_Writer_typeToExpr(w *Writer, t types.Type) (result ast.Expr) {
+	vs.Requires(wInv(w))
+	vs.Ensures("inv", wInv(w))
+	vs.Ensures("keeps", wKeeps(w))
+	vs.Modifies(w.typeConverter.imports, w.typeConverter.usedNames, w.typeConverter.nameCounters)
+	vs.Allocates()
+	return
+}
+
+//kvc:contract (*Writer).exprWithPos
+func contract_Writer_exprWithPos(w *Writer, expr ast.Expr, pos token.Pos) (result ast.Expr) {
+	vs.Allocates()
+	return
+}
+
+//kvc:contract (*Writer).provideToExpr
+func contract_Writer_provideToExpr(w *Writer, kp *KessokuProvide) (result ast.Expr) {
+	vs.Requires(kp != nil)
+	vs.Ensures("nonnil", result != nil)
+	vs.Allocates()
+	return
+}
+
+//kvc:contract (*Writer).valueToExpr
+func contract_Writer_valueToExpr(w *Writer, kv *KessokuValue) (result ast.Expr) {
+	vs.Requires(kv != nil)
+	vs.Ensures("nonnil", result != nil)
+	vs.Allocates()
+	return
+}
+
+//kvc:contract (*Writer).bindToExpr
+func contract_Writer_bindToExpr(w *Writer, kb *KessokuBind) (result ast.Expr) {
+	vs.Requires(wInv(w) && kb != nil && patternsWF())
+	vs.Ensures("inv", wInv(w))
+	vs.Ensures("keeps", wKeeps(w))
+	vs.Ensures("nonnil", result != nil)
+	vs.Modifies(w.typeConverter.imports, w.typeConverter.usedNames, w.typeConverter.nameCounters)
+	vs.Allocates()
+	return
+}
+
+// patternsNonNil: typed nil pointers inside pattern interfaces do not occur (the transformer only
+// produces &T{...} values).
+func patternOK(p KessokuPattern) bool {
+	return p == nil || vs.IsAllocated(p)
+}
+
+//kvc:contract (*Writer).patternToExpr
+func contract_Writer_patternToExpr(w *Writer, p KessokuPattern) (result ast.Expr) {
+	vs.Requires(wInv(w) && patternOK(p) && patternsWF())
+	vs.Ensures("inv", wInv(w))
+	vs.Ensures("keeps", wKeeps(w))
+	vs.Modifies(w.typeConverter.imports, w.typeConverter.usedNames, w.typeConverter.nameCounters)
+	vs.Allocates()
+	return
+}
+
+//kvc:contract (*Writer).patternToExprWithPos
+func contract_Writer_patternToExprWithPos(w *Writer, p KessokuPattern, pos token.Pos) (result ast.Expr) {
+	vs.Requires(wInv(w) && patternOK(p) && patternsWF())
+	vs.Ensures("inv", wInv(w))
+	vs.Ensures("keeps", wKeeps(w))
+	vs.Modifies(w.typeConverter.imports, w.typeConverter.usedNames, w.typeConverter.nameCounters)
+	vs.Allocates()
+	return
+}
+
+func elementsOK(elements []KessokuPattern) bool {
+	return vs.Forall(len(elements), func(i int) bool { return patternOK(elements[i]) })
+}
+
+// patternsWF: no pattern object anywhere holds a typed nil pointer as a sub-pattern. (Quantified over
+// all references: the pattern fields are written by nobody under contract here, so the fact is stable.)
+func patternsWF() bool {
+	return vs.ForallRef(func(s *KessokuSet) bool { return elementsOK(s.Elements) }) &&
+		vs.ForallRef(func(b *KessokuBind) bool { return patternOK(b.Provider) }) &&
+		vs.ForallRef(func(k *KessokuInject) bool { return elementsOK(k.Elements) })
+}
+
+//kvc:contract (*Writer).buildElementArgs
+func contract_Writer_buildElementArgs(w *Writer, elements []KessokuPattern, startLine int) (result []ast.Expr) {
+	vs.Requires(wInv(w) && elementsOK(elements) && patternsWF())
+	vs.Ensures("inv", wInv(w))
+	vs.Ensures("keeps", wKeeps(w))
+	vs.Ensures("one_per_element", len(result) == len(elements))
+	vs.Modifies(w.typeConverter.imports, w.typeConverter.usedNames, w.typeConverter.nameCounters)
+	vs.Allocates()
+	return
+}
+
+//kvc:loop (*Writer).buildElementArgs "for i, elem := range elements"
+func inv_buildElementArgs(w *Writer, args []ast.Expr, kvcIdx int) {
+	vs.Invariant("inv", wInv(w))
+	vs.Invariant("keeps", wKeeps(w))
+	vs.Invariant("len", len(args) == kvcIdx)
+}
+
+// declaresVar: d is `var <name> = <one value>`.
+func declaresVar(d *ast.GenDecl, name string) bool {
+	return d != nil && d.Tok == token.VAR && len(d.Specs) == 1 &&
+		vs.TypeIs[*ast.ValueSpec](d.Specs[0]) && vs.As[*ast.ValueSpec](d.Specs[0]) != nil &&
+		len(vs.As[*ast.ValueSpec](d.Specs[0]).Names) == 1 && vs.As[*ast.ValueSpec](d.Specs[0]).Names[0] != nil &&
+		vs.As[*ast.ValueSpec](d.Specs[0]).Names[0].Name == name &&
+		len(vs.As[*ast.ValueSpec](d.Specs[0]).Values) == 1
+}
+
+//kvc:contract wrapInVarDecl
+func contract_wrapInVarDecl(varName string, value ast.Expr) (result *ast.GenDecl) {
+	vs.Ensures("declares", declaresVar(result, varName))
+	vs.Allocates()
+	return
+}
+
+//kvc:contract (*Writer).setToDecl
+func contract_Writer_setToDecl(w *Writer, ks *KessokuSet) (result *ast.GenDecl) {
+	vs.Requires(wInv(w) && ks != nil && patternsWF())
+	vs.Ensures("inv", wInv(w))
+	vs.Ensures("keeps", wKeeps(w))
+	vs.Ensures("declared_under_original_name", declaresVar(result, ks.VarName))
+	vs.Modifies(w.typeConverter.imports, w.typeConverter.usedNames, w.typeConverter.nameCounters)
+	vs.Allocates()
+	return
+}
+
+//kvc:contract (*Writer).injectToDecl
+func contract_Writer_injectToDecl(w *Writer, ki *KessokuInject) (result *ast.GenDecl) {
+	vs.Requires(wInv(w) && ki != nil && patternsWF())
+	vs.Ensures("inv", wInv(w))
+	vs.Ensures("keeps", wKeeps(w))
+	vs.Ensures("blank_var", declaresVar(result, "_"))
+	vs.Modifies(w.typeConverter.imports, w.typeConverter.usedNames, w.typeConverter.nameCounters)
+	vs.Allocates()
+	return
+}
+
+func isSet(p KessokuPattern) bool { return vs.TypeIs[*KessokuSet](p) && vs.As[*KessokuSet](p) != nil }
+func isInject(p KessokuPattern) bool {
+	return vs.TypeIs[*KessokuInject](p) && vs.As[*KessokuInject](p) != nil
+}
+func setName(p KessokuPattern) string { return vs.As[*KessokuSet](p).VarName }
+
+//kvc:contract (*Writer).PatternToDecl
+func contract_Writer_PatternToDecl(w *Writer, p KessokuPattern) (result ast.Decl) {
+	vs.Requires(wInv(w) && patternOK(p) && patternsWF())
+	vs.Ensures("inv", wInv(w))
+	vs.Ensures("keeps", wKeeps(w))
+	vs.Ensures("decl_iff_set_or_inject", (result != nil) == (isSet(p) || isInject(p)))
+	vs.Ensures("set_declared_under_its_name", vs.Implies(isSet(p),
+		vs.TypeIs[*ast.GenDecl](result) && declaresVar(vs.As[*ast.GenDecl](result), setName(p))))
+	vs.Ensures("inject_declared_blank", vs.Implies(isInject(p),
+		vs.TypeIs[*ast.GenDecl](result) && declaresVar(vs.As[*ast.GenDecl](result), "_")))
+	vs.Modifies(w.typeConverter.imports, w.typeConverter.usedNames, w.typeConverter.nameCounters)
+	vs.Allocates()
+	return
+}
+
+//kvc:contract NewWriter
+func contract_NewWriter(tc *TypeConverter) (result *Writer) {
+	vs.Ensures("wraps", result != nil && result.typeConverter == tc)
+	vs.Allocates()
+	return
+}
+
+// ---------------------------------------------------------------------------
+// mergeResults: one package, set names pairwise distinct, one declaration per set/inject pattern,
+// import list = kessoku + everything the converter knows at the END (so imports added while the
+// declarations were built are listed).
+// ---------------------------------------------------------------------------
+
+func resultsWF(results []MigrationResult) bool {
+	return patternsWF() && vs.Forall(len(results), func(i int) bool { return elementsOK(results[i].Patterns) })
+}
+
+// earlier: position (i,a) comes before (ri,pi) in the nested iteration order.
+func earlier(i, a, ri, pi int) bool { return i < ri || (i == ri && a < pi) }
+
+func setAt(results []MigrationResult, i, a int) bool {
+	return 0 <= i && i < len(results) && 0 <= a && a < len(results[i].Patterns) && isSet(results[i].Patterns[a])
+}
+
+func nameAt(results []MigrationResult, i, a int) string { return setName(results[i].Patterns[a]) }
+
+const kessokuPath = "github.com/mazrean/kessoku"
+
+//kvc:contract (*Migrator).mergeResults
+func contract_Migrator_mergeResults(m *Migrator, results []MigrationResult, typeConverter *TypeConverter) (out *MergedOutput, writer *Writer, err error) {
+	vs.Requires(resultsWF(results) && (typeConverter == nil || tcInv(typeConverter)))
+	vs.Ensures("error_returns_nothing", vs.Implies(err != nil, out == nil && writer == nil))
+	vs.Ensures("success_returns_both", vs.Implies(err == nil, out != nil && writer != nil && writer.typeConverter == typeConverter && len(results) > 0))
+	vs.Ensures("one_package", vs.Implies(err == nil, vs.Forall(len(results), func(i int) bool { return results[i].Package == out.Package })))
+	vs.Ensures("set_names_distinct", vs.Implies(err == nil, vs.ForallInt2(func(i, j int) bool {
+		return vs.ForallInt2(func(a, b int) bool {
+			return vs.Implies(setAt(results, i, a) && setAt(results, j, b) && (i != j || a != b), nameAt(results, i, a) != nameAt(results, j, b))
+		})
+	})))
+	vs.Ensures("kessoku_import_first", vs.Implies(err == nil, len(out.Imports) >= 1 && out.Imports[0].Path == kessokuPath && out.Imports[0].Name == ""))
+	vs.Ensures("imports_follow_alias_rule", vs.Implies(err == nil && typeConverter != nil,
+		vs.ForallRange(1, len(out.Imports), func(k int) bool { return aliasRule(typeConverter, out.Imports[k]) })))
+	vs.Ensures("q_every_converter_import_listed", vs.Implies(err == nil && typeConverter != nil, vs.ForallString(func(p string) bool {
+		return vs.Implies(vs.Has(typeConverter.imports, p), vs.ExistsRange(1, len(out.Imports), func(k int) bool { return out.Imports[k].Path == p }))
+	})))
+	vs.Ensures("no_converter_only_kessoku", vs.Implies(err == nil && typeConverter == nil, len(out.Imports) == 1))
+	vs.Ensures("converter_inv", typeConverter == nil || (tcInv(typeConverter) && tcKeeps(typeConverter)))
+	vs.Ensures("decls_nonnil", vs.Implies(err == nil, vs.Forall(len(out.TopLevelDecls), func(k int) bool { return out.TopLevelDecls[k] != nil })))
+	vs.Modifies(typeConverter.imports, typeConverter.usedNames, typeConverter.nameCounters, vs.FieldOfAll((*ast.Ident)(nil).Name))
+	vs.Allocates()
+	return
+}
+
+//kvc:loop (*Migrator).mergeResults "for _, r := range results[1:]"
+func inv_mergeResults_pkg(results []MigrationResult, pkgName string, kvcIdx int) {
+	vs.Invariant("same_so_far", len(results) > 0 && pkgName == results[0].Package &&
+		vs.ForallRange(1, 1+kvcIdx, func(j int) bool { return results[j].Package == pkgName }))
+}
+
+//kvc:loop (*Migrator).mergeResults "for _, r := range results { for _, p := range r.Patterns { if set, ok"
+func inv_mergeResults_ids_outer(results []MigrationResult, identifiers map[string]string, kvcIdx int) {
+	vs.Invariant("ids", identifiers != nil)
+	vs.Invariant("recorded", vs.ForallInt2(func(i, a int) bool {
+		return vs.Implies(setAt(results, i, a) && i < kvcIdx, vs.Has(identifiers, nameAt(results, i, a)))
+	}))
+	vs.Invariant("distinct", vs.ForallInt2(func(i, j int) bool {
+		return vs.ForallInt2(func(a, b int) bool {
+			return vs.Implies(setAt(results, i, a) && setAt(results, j, b) && i < kvcIdx && j < kvcIdx && (i != j || a != b),
+				nameAt(results, i, a) != nameAt(results, j, b))
+		})
+	}))
+}
+
+//kvc:loop (*Migrator).mergeResults "for _, p := range r.Patterns { if set, ok"
+func inv_mergeResults_ids_inner(results []MigrationResult, r MigrationResult, identifiers map[string]string, kvcIdx int, kvcOuterIdx int) {
+	vs.Invariant("ids", identifiers != nil)
+	vs.Invariant("r", 0 <= kvcOuterIdx && kvcOuterIdx < len(results) && vs.SameSlice(r.Patterns, results[kvcOuterIdx].Patterns))
+	vs.Invariant("recorded", vs.ForallInt2(func(i, a int) bool {
+		return vs.Implies(setAt(results, i, a) && earlier(i, a, kvcOuterIdx, kvcIdx), vs.Has(identifiers, nameAt(results, i, a)))
+	}))
+	vs.Invariant("distinct", vs.ForallInt2(func(i, j int) bool {
+		return vs.ForallInt2(func(a, b int) bool {
+			return vs.Implies(setAt(results, i, a) && setAt(results, j, b) && earlier(i, a, kvcOuterIdx, kvcIdx) && earlier(j, b, kvcOuterIdx, kvcIdx) && (i != j || a != b),
+				nameAt(results, i, a) != nameAt(results, j, b))
+		})
+	}))
+}
+
+//kvc:loop (*Migrator).mergeResults "for _, r := range results { for _, p := range r.Patterns { typeConverter.CollectPatternImports"
+func inv_mergeResults_collect_outer(typeConverter *TypeConverter) {
+	vs.Invariant("inv", tcInv(typeConverter) && tcKeeps(typeConverter))
+}
+
+//kvc:loop (*Migrator).mergeResults "for _, p := range r.Patterns { typeConverter.CollectPatternImports"
+func inv_mergeResults_collect_inner(results []MigrationResult, r MigrationResult, typeConverter *TypeConverter, kvcOuterIdx int) {
+	vs.Invariant("inv", tcInv(typeConverter) && tcKeeps(typeConverter))
+	vs.Invariant("r", 0 <= kvcOuterIdx && kvcOuterIdx < len(results) && vs.SameSlice(r.Patterns, results[kvcOuterIdx].Patterns))
+}
+
+//kvc:loop (*Migrator).mergeResults "for _, r := range results { for _, p := range r.Patterns { decl := writer.PatternToDecl"
+func inv_mergeResults_decls_outer(writer *Writer, typeConverter *TypeConverter, decls []ast.Decl) {
+	vs.Invariant("w", writer != nil && writer.typeConverter == typeConverter && wInv(writer) && wKeeps(writer))
+	vs.Invariant("nonnil", vs.Forall(len(decls), func(k int) bool { return decls[k] != nil }))
+}
+
+//kvc:loop (*Migrator).mergeResults "for _, p := range r.Patterns { decl := writer.PatternToDecl"
+func inv_mergeResults_decls_inner(results []MigrationResult, r MigrationResult, writer *Writer, typeConverter *TypeConverter, decls []ast.Decl, kvcOuterIdx int) {
+	vs.Invariant("w", writer != nil && writer.typeConverter == typeConverter && wInv(writer) && wKeeps(writer))
+	vs.Invariant("nonnil", vs.Forall(len(decls), func(k int) bool { return decls[k] != nil }))
+	vs.Invariant("r", 0 <= kvcOuterIdx && kvcOuterIdx < len(results) && vs.SameSlice(r.Patterns, results[kvcOuterIdx].Patterns))
+}
+
+// ---------------------------------------------------------------------------
+// ExtractImports: the map from "identifier the file uses for a package" to its import path.
+// declaredPackageName(path) is the name in the package clause of the package at path (a fact about
+// the imported package that only the type checker knows; uninterpreted here).
+// ---------------------------------------------------------------------------
+
+//kvc:pure declaredPackageName
+func declaredPackageName(path string) string { return "" }
+
+//kvc:pure trimQuotes
+func trimQuotes(s string) string { return s }
+
+//kvc:model strings.Trim
+func model_strings_Trim(s, cutset string) string { return trimQuotes(s) }
+
+func importSpecsWF(file *ast.File) bool {
+	return file != nil && vs.Forall(len(file.Imports), func(k int) bool { return file.Imports[k] != nil && file.Imports[k].Path != nil })
+}
+
+func usableAlias(imp *ast.ImportSpec) bool {
+	return imp.Name != nil && imp.Name.Name != "." && imp.Name.Name != "_"
+}
+
+//kvc:contract (*Parser).ExtractImports
+func contract_Parser_ExtractImports(p *Parser, file *ast.File) (imports map[string]string) {
+	vs.Requires(importSpecsWF(file))
+	vs.Ensures("fresh_map", imports != nil)
+	vs.Ensures("aliases_are_keys", vs.Forall(len(file.Imports), func(k int) bool {
+		return vs.Implies(usableAlias(file.Imports[k]), vs.Has(imports, file.Imports[k].Name.Name))
+	}))
+	vs.Ensures("values_are_import_paths", vs.ForallString(func(n string) bool {
+		return vs.Implies(vs.Has(imports, n), vs.Exists(len(file.Imports), func(k int) bool { return imports[n] == trimQuotes(file.Imports[k].Path.Value) }))
+	}))
+	vs.Allocates()
+	return
+}
+
+//kvc:loop (*Parser).ExtractImports "for _, imp := range file.Imports"
+func inv_ExtractImports(file *ast.File, imports map[string]string, kvcIdx int) {
+	vs.Invariant("map", imports != nil)
+	vs.Invariant("aliases", vs.Forall(kvcIdx, func(k int) bool {
+		return vs.Implies(usableAlias(file.Imports[k]), vs.Has(imports, file.Imports[k].Name.Name))
+	}))
+	vs.Invariant("values", vs.ForallString(func(n string) bool {
+		return vs.Implies(vs.Has(imports, n), vs.Exists(kvcIdx, func(k int) bool { return imports[n] == trimQuotes(file.Imports[k].Path.Value) }))
+	}))
+}
+
+// C14 "imports exactly the packages it uses": an import without an alias is referred to in the file
+// by the package's DECLARED name, so that is the key under which CollectExprImports must find it.
+// ExtractImports alone can only guess (last path element: wrong for .../v2, gopkg.in/yaml.v3, go-foo);
+// ExtractImportsWithInfo - the one MigrateFiles uses - takes the name from the type checker.
+// Trusted go/types fact: for an unaliased import, Info.Implicits holds a *types.PkgName whose Name() is
+// the declared name of the imported package.
+
+// implicitPkgName: what the type checker recorded for an unaliased import spec (nil if nothing).
+func implicitPkgName(info *types.Info, imp *ast.ImportSpec) *types.PkgName {
+	return vs.As[*types.PkgName](info.Implicits[imp])
+}
+
+func hasImplicit(info *types.Info, imp *ast.ImportSpec) bool {
+	return vs.TypeIs[*types.PkgName](info.Implicits[imp]) && implicitPkgName(info, imp) != nil
+}
+
+//kvc:axiom
+func axiomImplicitNameIsDeclaredName() bool {
+	return vs.ForallRef(func(pn *types.PkgName) bool { return pn.Name() == declaredPackageName(pn.Imported().Path()) })
+}
+
+func usableName(n string) bool { return n != "." && n != "_" }
+
+//kvc:contract (*Parser).ExtractImportsWithInfo
+func contract_Parser_ExtractImportsWithInfo(p *Parser, file *ast.File, info *types.Info) (imports map[string]string) {
+	vs.Requires(importSpecsWF(file))
+	vs.Ensures("fresh_map", imports != nil)
+	vs.Ensures("aliases_are_keys", vs.Forall(len(file.Imports), func(k int) bool {
+		return vs.Implies(usableAlias(file.Imports[k]), vs.Has(imports, file.Imports[k].Name.Name))
+	}))
+	vs.Ensures("unaliased_imports_keyed_by_declared_name", vs.Implies(info != nil, vs.Forall(len(file.Imports), func(k int) bool {
+		return vs.Implies(file.Imports[k].Name == nil && hasImplicit(info, file.Imports[k]) && usableName(implicitPkgName(info, file.Imports[k]).Name()),
+			vs.Has(imports, declaredPackageName(implicitPkgName(info, file.Imports[k]).Imported().Path())))
+	})))
+	vs.Ensures("values_are_import_paths", vs.ForallString(func(n string) bool {
+		return vs.Implies(vs.Has(imports, n), vs.Exists(len(file.Imports), func(k int) bool { return imports[n] == trimQuotes(file.Imports[k].Path.Value) }))
+	}))
+	vs.Allocates()
+	return
+}
+
+//kvc:loop (*Parser).ExtractImportsWithInfo "for _, imp := range file.Imports"
+func inv_ExtractImportsWithInfo(file *ast.File, info *types.Info, imports map[string]string, kvcIdx int) {
+	vs.Invariant("map", imports != nil)
+	vs.Invariant("aliases", vs.Forall(kvcIdx, func(k int) bool {
+		return vs.Implies(usableAlias(file.Imports[k]), vs.Has(imports, file.Imports[k].Name.Name))
+	}))
+	vs.Invariant("keyed", vs.Implies(info != nil, vs.Forall(kvcIdx, func(k int) bool {
+		return vs.Implies(file.Imports[k].Name == nil && hasImplicit(info, file.Imports[k]) && usableName(implicitPkgName(info, file.Imports[k]).Name()),
+			vs.Has(imports, declaredPackageName(implicitPkgName(info, file.Imports[k]).Imported().Path())))
+	})))
+	vs.Invariant("values", vs.ForallString(func(n string) bool {
+		return vs.Implies(vs.Has(imports, n), vs.Exists(kvcIdx, func(k int) bool { return imports[n] == trimQuotes(file.Imports[k].Path.Value) }))
+	}))
+}
+
+// ---------------------------------------------------------------------------
+// C14 "when migrate fails it writes no output file".
+//
+// Ghost state: gWrites counts os.WriteFile calls, gWritten[p] says that path p was written,
+// gWriteFailures counts os.WriteFile calls that themselves reported an error (the only failure after which
+// a file may have been touched). The models below are the trusted semantics of the external calls.
+// ---------------------------------------------------------------------------
+
+var (
+	gWrites        int
+	gWriteFailures int
+	gWritten       map[string]bool
+)
+
+//kvc:model os.WriteFile
+func model_os_WriteFile(name string, data []byte, perm fs.FileMode) error {
+	gWrites++
+	gWritten[name] = true
+	if vs.NondetBool() {
+		gWriteFailures++
+		return vs.SomeError()
+	}
+	return nil
+}
+
+//kvc:model go/format.Node
+func model_format_Node(dst io.Writer, fset *token.FileSet, node any) error {
+	if vs.NondetBool() {
+		return vs.SomeError()
+	}
+	return nil
+}
+
+//kvc:model (*bytes.Buffer).WriteString
+func model_Buffer_WriteString(b *bytes.Buffer, s string) (int, error) { return len(s), nil }
+
+//kvc:pure bufferBytes
+func bufferBytes(b *bytes.Buffer) []byte { return nil }
+
+//kvc:model (*bytes.Buffer).Bytes
+func model_Buffer_Bytes(b *bytes.Buffer) []byte { return bufferBytes(b) }
+
+//kvc:model go/token.NewFileSet
+func model_token_NewFileSet() *token.FileSet { return new(token.FileSet) }
+
+//kvc:model (*token.FileSet).AddFile
+func model_FileSet_AddFile(s *token.FileSet, filename string, base, size int) *token.File {
+	return new(token.File)
+}
+
+//kvc:model (*token.File).SetLines
+func model_File_SetLines(f *token.File, lines []int) bool { return vs.NondetBool() }
+
+//kvc:contract (*Writer).buildImportDecl
+func contract_Writer_buildImportDecl(w *Writer, imports []ImportSpec) (result *ast.GenDecl) {
+	vs.Ensures("nonnil", result != nil)
+	vs.Allocates()
+	return
+}
+
+//kvc:contract (*Writer).buildFile
+func contract_Writer_buildFile(w *Writer, output *MergedOutput) (result *ast.File) {
+	vs.Requires(output != nil)
+	vs.Ensures("nonnil", result != nil)
+	vs.Allocates()
+	return
+}
+
+func writesOnly(path string) bool {
+	return vs.ForallString(func(p string) bool { return vs.Implies(p != path, gWritten[p] == vs.Old(gWritten[p])) })
+}
+
+//kvc:loop (*Writer).Write "for i := range lines"
+func inv_Write_lines(lines []int) {
+	vs.Invariant("len", len(lines) == maxLines)
+}
+
+//kvc:contract (*Writer).Write
+func contract_Writer_Write(w *Writer, output *MergedOutput, path string) (err error) {
+	vs.Requires(output != nil)
+	vs.Ensures("at_most_one_write", gWrites <= vs.Old(gWrites)+1)
+	vs.Ensures("writes_only_the_output_path", writesOnly(path))
+	vs.Ensures("format_failure_writes_nothing", vs.Implies(err != nil && gWriteFailures == vs.Old(gWriteFailures), gWrites == vs.Old(gWrites)))
+	vs.Ensures("success_wrote_once", vs.Implies(err == nil, gWrites == vs.Old(gWrites)+1 && gWritten[path] && gWriteFailures == vs.Old(gWriteFailures)))
+	vs.Modifies(gWrites, gWriteFailures, gWritten)
+	vs.Allocates()
+	return
+}
+
+// --- MigrateFiles: everything before the final Write is free of file writes --------------------
+
+// gLoaded: the packages delivered by the (last) packages.Load call.
+var gLoaded []*packages.Package
+
+func someLoadError() bool {
+	return vs.Exists(len(gLoaded), func(i int) bool { return len(gLoaded[i].Errors) > 0 })
+}
+
+//kvc:model golang.org/x/tools/go/packages.Load
+func model_packages_Load(cfg *packages.Config, patterns ...string) ([]*packages.Package, error) {
+	if vs.NondetBool() {
+		return nil, vs.SomeError()
+	}
+	pkgs := loadedPackages(cfg)
+	vs.Assume(pkgsWF(pkgs)) // what the loader delivers (trusted)
+	gLoaded = pkgs
+	return pkgs, nil
+}
+
+//kvc:pure loadedPackages
+func loadedPackages(cfg *packages.Config) []*packages.Package { return nil }
+
+// what the loader delivers: non-nil packages whose syntax trees are non-nil files with well-formed import specs
+func pkgsWF(pkgs []*packages.Package) bool {
+	return vs.Forall(len(pkgs), func(i int) bool {
+		return pkgs[i] != nil && pkgs[i].TypesInfo != nil && vs.Forall(len(pkgs[i].Syntax), func(k int) bool { return importSpecsWF(pkgs[i].Syntax[k]) })
+	})
+}
+
+//kvc:contract (*Migrator).convertPackageError
+func contract_Migrator_convertPackageError(m *Migrator, pkgErr packages.Error) (err error) {
+	vs.Ensures("is_an_error", err != nil)
+	vs.Allocates()
+	return
+}
+
+//kvc:contract (*Parser).FindWireImport
+func contract_Parser_FindWireImport(p *Parser, file *ast.File) (result string) {
+	vs.Requires(importSpecsWF(file))
+	return
+}
+
+//kvc:loop (*Parser).FindWireImport "for _, imp := range file.Imports"
+func inv_FindWireImport() {}
+
+// ExtractPatterns and Transform are outside the subset (type-directed pattern recognition over
+// go/types); ASSUMED: they allocate, Transform may extend the converter (through AddImport only),
+// neither writes a file (also checked syntactically by the side check migrate_write_sites), and the
+// transformer never stores a typed nil pointer in a pattern.
+//
+//kvc:contract (*Parser).ExtractPatterns
+func contract_Parser_ExtractPatterns(p *Parser, file *ast.File, info *types.Info, wireAlias string, filePath string) (patterns []WirePattern, warnings []Warning) {
+	vs.Allocates()
+	return
+}
+
+//kvc:contract (*Transformer).Transform
+func contract_Transformer_Transform(t *Transformer, patterns []WirePattern, pkg *types.Package, tc *TypeConverter) (result []KessokuPattern, err error) {
+	vs.Requires(t != nil && (tc == nil || tcInv(tc)) && patternsWF())
+	vs.Ensures("converter_inv", tc == nil || (tcInv(tc) && tcKeeps(tc)))
+	vs.Ensures("patterns_wf", patternsWF() && elementsOK(result))
+	vs.Modifies(t.tc, tc.imports, tc.usedNames, tc.nameCounters)
+	vs.Allocates()
+	return
+}
+
+//kvc:contract NewTypeConverter
+func contract_NewTypeConverter(currentPkg *types.Package) (result *TypeConverter) {
+	vs.Ensures("inv", tcInv(result))
+	vs.Ensures("empty", vs.ForallString(func(s string) bool { return !vs.Has(result.imports, s) && !vs.Has(result.usedNames, s) }))
+	vs.Ensures("pkg", result.currentPkg == currentPkg)
+	vs.Allocates()
+	return
+}
+
+func migratorWF(m *Migrator) bool { return m != nil && m.parser != nil && m.transformer != nil }
+
+//kvc:contract (*Migrator).MigrateFiles
+func contract_Migrator_MigrateFiles(m *Migrator, patterns []string, outputPath string) (err error) {
+	vs.Requires(migratorWF(m) && patternsWF())
+	vs.Ensures("failure_writes_no_file", vs.Implies(err != nil && gWriteFailures == vs.Old(gWriteFailures), gWrites == vs.Old(gWrites)))
+	vs.Ensures("syntax_or_type_errors_are_fatal", vs.Implies(someLoadError(), err != nil && gWrites == vs.Old(gWrites)))
+	vs.Ensures("at_most_one_write", gWrites <= vs.Old(gWrites)+1)
+	vs.Ensures("writes_only_the_output_path", writesOnly(outputPath))
+	vs.ModifiesAll()
+	vs.Allocates()
+	return
+}
+
+// the map handed to the import collector is keyed by the names the file really uses
+//
+//kvc:ghost (*Migrator).MigrateFiles after "sourceImports :="
+func ghost_MigrateFiles_sourceImports(file *ast.File, pkg *packages.Package, sourceImports map[string]string) {
+	vs.Assert("source_imports_keyed_by_declared_names", vs.Forall(len(file.Imports), func(k int) bool {
+		return vs.Implies(file.Imports[k].Name == nil && hasImplicit(pkg.TypesInfo, file.Imports[k]) && usableName(implicitPkgName(pkg.TypesInfo, file.Imports[k]).Name()),
+			vs.Has(sourceImports, declaredPackageName(implicitPkgName(pkg.TypesInfo, file.Imports[k]).Imported().Path())))
+	}))
+}
+
+//kvc:loop (*Migrator).MigrateFiles "for _, pkg := range pkgs { if len(pkg.Errors) > 0"
+func inv_MigrateFiles_errors(pkgs []*packages.Package, kvcIdx int) {
+	vs.Invariant("loaded", vs.SameSlice(gLoaded, pkgs) && vs.Forall(kvcIdx, func(i int) bool { return len(pkgs[i].Errors) == 0 }))
+	vs.Invariant("nothing_written", gWrites == vs.Old(gWrites) && gWriteFailures == vs.Old(gWriteFailures) && writesOnly(""))
+	vs.Invariant("wf", pkgsWF(pkgs))
+}
+
+//kvc:loop (*Migrator).MigrateFiles "for _, pkg := range pkgs { // Build a map"
+func inv_MigrateFiles_pkgs(m *Migrator, pkgs []*packages.Package, results []MigrationResult, sharedTypeConverter *TypeConverter) {
+	vs.Invariant("no_load_error", vs.SameSlice(gLoaded, pkgs) && !someLoadError())
+	vs.Invariant("nothing_written", gWrites == vs.Old(gWrites) && gWriteFailures == vs.Old(gWriteFailures) && writesOnly(""))
+	vs.Invariant("wf", pkgsWF(pkgs) && migratorWF(m) && resultsWF(results) && (sharedTypeConverter == nil || tcInv(sharedTypeConverter)))
+}
+
+//kvc:loop (*Migrator).MigrateFiles "for i, file := range pkg.Syntax"
+func inv_MigrateFiles_files(m *Migrator, pkgs []*packages.Package, pkg *packages.Package, results []MigrationResult, sharedTypeConverter *TypeConverter) {
+	vs.Invariant("no_load_error", vs.SameSlice(gLoaded, pkgs) && !someLoadError())
+	vs.Invariant("nothing_written", gWrites == vs.Old(gWrites) && gWriteFailures == vs.Old(gWriteFailures) && writesOnly(""))
+	vs.Invariant("wf", pkgsWF(pkgs) && pkg != nil && pkg.TypesInfo != nil && vs.Forall(len(pkg.Syntax), func(k int) bool { return importSpecsWF(pkg.Syntax[k]) }) && migratorWF(m) && resultsWF(results) && (sharedTypeConverter == nil || tcInv(sharedTypeConverter)))
+}
+
+//kvc:loop (*Migrator).MigrateFiles "for _, w := range allWarnings"
+func inv_MigrateFiles_warnings() {
+	vs.Invariant("no_load_error", !someLoadError())
+	vs.Invariant("nothing_written", gWrites == vs.Old(gWrites) && gWriteFailures == vs.Old(gWriteFailures) && writesOnly(""))
+}
